@@ -20,9 +20,6 @@ open Zc.GenFacts.Listener
 
 variable {σ ω β : Type} (H : Handler σ ω β)
 
-/-- the property's exception: a query containing a QU question -/
-def quQuery (H : Handler σ ω β) (d : Bytes) : Bool := (H.parse d).isQuery && (H.parse d).hasQU
-
 /-- **C16, one datagram.**  For every handler, state, datagram that is not a QU query, source and instant:
 the second of two back-to-back deliveries changes nothing and emits nothing (the `draw`s may differ: the
 second copy never consumes one). -/
@@ -153,7 +150,7 @@ theorem C16_history (h : List (Block β)) (hq : ∀ b ∈ h, b.quiet H = true) :
 
 "A TC timer is armed only for an address that has a deferred packet."  C15 proves this for the concrete
 host (`Survive.LInv.timer`); here it is proved for the listener over **every** handler, with C15's
-association-list lemmas, and shown to be the same predicate (`C16_timerInv_is_C15s`). -/
+association-list lemmas; `Proofs/ListenerBridge.lean` (`timerInv_forget`, `timerInv_of_LInv`) shows it is the same predicate. -/
 
 /-- the invariant holds initially and is preserved by every block (arrival, TC timer, anything else) -/
 theorem C16_timer_invariant :
@@ -185,11 +182,6 @@ theorem C16_history_total (d0 : σ) (h : List (Block β)) (hq : ∀ b ∈ h, b.q
   · exact Or.inl ⟨(s', o), hr, by rw [he, hr]⟩
   · exact Or.inr ⟨hr, by rw [he, hr]⟩
 
-/-- the invariant proved here and the `timer` half of C15's `LInv` are one predicate, read through the
-forgetful map from C15's concrete listener state to this one -/
-theorem C16_timerInv_is_C15s (s : Zc.Survive.State σ) (hL : Zc.Survive.LInv s) : TimerInv (forget s) :=
-  (timerInv_forget s).mpr hL.timer
-
 /-- **The exception is real and is exactly the guard's.**  After a QU query was processed the guard is
 open: the second copy goes through `process` again (so the query handler runs again). -/
 theorem C16_qu_reprocessed (s : State σ) (d : Bytes) (a : Addr) (p : Nat) (now : Ms) (r r' : Nat)
@@ -203,6 +195,143 @@ theorem C16_qu_reprocessed (s : State σ) (d : Bytes) (a : Addr) (p : Nat) (now 
   have := guardHit_false_of_qu_query (process H s d a p now r).1 d now (H.parse d) f3 hq.1 hq.2
   rw [hs1]
   simp [recv, hsize, this]
+
+/-! ## histories that contain QU queries
+
+The second copy of a QU query is processed again; what that does downstream is the handler's business.  The hypothesis
+is therefore about the handler: `QueryRepeatNeutral H ok` — answering the same single packet again, right after a query
+that ended with it, leaves the downstream state as it was and emits only outputs that pass `ok` (for the real responder:
+unicast answers — false where findings D11/D11b apply; the harness checks exactly this on the real `QueryHandler`, on
+every duplicated QU query). -/
+
+/-- from the handler-level condition to the listener-level one: every case of the second copy — oversize, suppressed
+first copy, invalid, registry empty, truncated (found in `_deferred`), answered (deferred packets already popped,
+timers already cancelled: erasing again changes nothing) -/
+theorem C16_second_copy_neutral (ok : ω → Bool) (hH : QueryRepeatNeutral H ok) : SecondCopyNeutral H ok := by
+  intro s d a p now r r' hqu
+  have hqu' := hqu
+  simp only [quQuery, Bool.and_eq_true] at hqu'
+  obtain ⟨hq, hu⟩ := hqu'
+  by_cases hov : Gen.Listener.oversize (d.length : Int) = true
+  · simp [recv, hov]
+  by_cases hg : guardHit s d now = true
+  · simp [recv, hov, hg]
+  have hov' : Gen.Listener.oversize (d.length : Int) = false := by simpa using hov
+  have hg' : guardHit s d now = false := by simpa using hg
+  rw [C16_qu_reprocessed H s d a p now r r' hov' hg' hqu]
+  have hs1 : (recv H s d a p now r).1 = (process H s d a p now r).1 := by simp [recv, hov', hg']
+  rw [hs1]
+  by_cases hv : (H.parse d).valid = true
+  · by_cases he : H.hasEntries s.down = true
+    · by_cases htc : (H.parse d).truncated = true
+      · -- truncated: found in `_deferred`
+        have := C16_truncated_idempotent H s d a p now r r' hv hq htc
+        rw [C16_qu_reprocessed H s d a p now r r' hov' hg' hqu, hs1] at this
+        exact ⟨this.1, by rw [this.2]; simp⟩
+      · have htc' : (H.parse d).truncated = false := by simpa using htc
+        rw [process_answered H s d a p now r hv hq htc' he]
+        simp only
+        by_cases he2 : H.hasEntries (H.onQuery s.down ((alGet a s.deferred).getD [] ++ [(⟨d, now⟩ : Packet)]) a p).1 = true
+        · obtain ⟨n1, n2⟩ := hH s.down ((alGet a s.deferred).getD []) (⟨d, now⟩ : Packet) a p
+          rw [process_answered H _ d a p now r' hv hq htc' he2]
+          simp only [alGet_alErase_self, Option.getD_none, List.nil_append, alErase_idem]
+          exact ⟨by rw [n1], n2⟩
+        · simp [process, hv, hq, he2]
+    · simp [process, hv, hq, he]
+  · simp [process, hv]
+
+/-- **C16, whole histories, QU queries included.**  For every handler whose reaction to the second copy of a QU query is
+state-neutral (`SecondCopyNeutral`, implied by `QueryRepeatNeutral`), every state and every history — QU queries, TC
+timers, any other blocks: duplicating every arrival yields the *same final state*, the same error if any, and the
+same outputs except for extra outputs that pass `ok` (for the real responder: unicast answers to the querier).
+`_partial`: the hypothesis on the handler is what findings D11 and D11b violate (the second answer multicasts / queues
+again and so is neither `ok` nor — through the queues — state-neutral); for everything else the harness checks it on the
+real handler. -/
+theorem C16_history_qu_partial (ok : ω → Bool) (hN : SecondCopyNeutral H ok) (h : List (Block β)) :
+    ∀ s : State σ,
+      (∀ s1 o1, run H s h = .ok (s1, o1) → ∃ o2, run H s (dupAll h) = .ok (s1, o2) ∧ ExtraOf ok o1 o2) ∧
+      (∀ e, run H s h = .error e → run H s (dupAll h) = .error e) := by
+  induction h with
+  | nil =>
+    intro s
+    exact ⟨fun s1 o1 hr => ⟨o1, hr, by simp only [run, Except.ok.injEq, Prod.mk.injEq] at hr; rw [← hr.2]; exact .nil⟩,
+      fun e hr => by simp [run] at hr⟩
+  | cons b rest ih =>
+    intro s
+    cases b with
+    | recv d a p n r =>
+      -- the second copy: a no-op (not a QU query) or state-neutral with `ok` outputs (QU query)
+      have second : (recv H (recv H s d a p n r).1 d a p n r).1 = (recv H s d a p n r).1 ∧
+          ∀ x ∈ (recv H (recv H s d a p n r).1 d a p n r).2.1, ok x = true := by
+        by_cases hq : quQuery H d = true
+        · exact hN s d a p n r r hq
+        · obtain ⟨e1, e2⟩ := C16_idempotent H s d a p n r r (by simpa using hq)
+          exact ⟨e1, by rw [e2]; simp⟩
+      obtain ⟨ihok, iherr⟩ := ih (recv H s d a p n r).1
+      simp only [dupAll, run, step, bind, Except.bind, pure, Except.pure]
+      rw [second.1]
+      constructor
+      · intro s1 o1 hr
+        cases hrest : run H (recv H s d a p n r).1 rest with
+        | error e => simp [hrest] at hr
+        | ok v =>
+          obtain ⟨s2, o2⟩ := v
+          simp only [hrest, Except.ok.injEq, Prod.mk.injEq] at hr
+          obtain ⟨rfl, rfl⟩ := hr
+          obtain ⟨o3, h3, x3⟩ := ihok s2 o2 hrest
+          refine ⟨(recv H s d a p n r).2.1 ++ ((recv H (recv H s d a p n r).1 d a p n r).2.1 ++ o3), by simp [h3], ?_⟩
+          exact ExtraOf.append ok (ExtraOf.refl ok _) (ExtraOf.extras ok _ second.2 x3)
+      · intro e hr
+        cases hrest : run H (recv H s d a p n r).1 rest with
+        | error e' =>
+          simp only [hrest, Except.error.injEq] at hr
+          subst hr
+          simp [iherr e' hrest]
+        | ok v => simp [hrest] at hr
+    | tcFire a =>
+      simp only [dupAll, run, bind, Except.bind]
+      cases hst : step H s (.tcFire a) with
+      | error e => exact ⟨fun _ _ hr => by simp at hr, fun e' hr => hr⟩
+      | ok v =>
+        obtain ⟨ihok, iherr⟩ := ih v.1
+        constructor
+        · intro s1 o1 hr
+          cases hrest : run H v.1 rest with
+          | error e => simp [hrest] at hr
+          | ok w =>
+            simp only [hrest, pure, Except.pure, Except.ok.injEq, Prod.mk.injEq] at hr
+            obtain ⟨rfl, rfl⟩ := hr
+            obtain ⟨o3, h3, x3⟩ := ihok w.1 w.2 (by simp [hrest])
+            exact ⟨_, by simp [h3, pure, Except.pure], ExtraOf.append ok (ExtraOf.refl ok _) x3⟩
+        · intro e hr
+          cases hrest : run H v.1 rest with
+          | error e' =>
+            simp only [hrest, Except.error.injEq] at hr
+            subst hr
+            simp [iherr e' hrest]
+          | ok w => simp [hrest, pure, Except.pure] at hr
+    | other x =>
+      simp only [dupAll, run, bind, Except.bind]
+      cases hst : step H s (.other x) with
+      | error e => exact ⟨fun _ _ hr => by simp at hr, fun e' hr => hr⟩
+      | ok v =>
+        obtain ⟨ihok, iherr⟩ := ih v.1
+        constructor
+        · intro s1 o1 hr
+          cases hrest : run H v.1 rest with
+          | error e => simp [hrest] at hr
+          | ok w =>
+            simp only [hrest, pure, Except.pure, Except.ok.injEq, Prod.mk.injEq] at hr
+            obtain ⟨rfl, rfl⟩ := hr
+            obtain ⟨o3, h3, x3⟩ := ihok w.1 w.2 (by simp [hrest])
+            exact ⟨_, by simp [h3, pure, Except.pure], ExtraOf.append ok (ExtraOf.refl ok _) x3⟩
+        · intro e hr
+          cases hrest : run H v.1 rest with
+          | error e' =>
+            simp only [hrest, Except.error.injEq] at hr
+            subst hr
+            simp [iherr e' hrest]
+          | ok w => simp [hrest, pure, Except.pure] at hr
 
 /-! ## What the re-processed QU query emits (`_QueryResponse` routing)
 
@@ -239,26 +368,31 @@ theorem C16_qu_full_refuted : ¬ C16_qu_full := by
   revert this
   decide
 
-/-- composition with the guard: for every handler whose query path is the modelled routing on *some*
-view of its state, the second copy of a processed, untruncated QU query emits only unicast datagrams when
-the view is pure-QU and all-recent -/
+/-- composition with the guard: for every handler whose query path is the modelled routing on some view of its
+state and of the packets it is handed, the second copy of an answered, untruncated QU query emits only unicast
+datagrams when the view **of the state the first copy left behind and of the one packet the second copy brings** is
+pure-QU and all-recent.  (The hypothesis is about that state and that packet list only; `viewH` below is a handler whose
+view depends on both and meets it at one state and not at another.) -/
 theorem C16_qu_second_copy_unicast_partial (H : Handler σ Emit β) (view : σ → List Packet → Addr → Nat → QueryIn)
     (hH : ∀ x ps a p, (H.onQuery x ps a p).2 = respondEmits (view x ps a p))
     (s : State σ) (d : Bytes) (a : Addr) (p : Nat) (now : Ms) (r r' : Nat)
     (hsize : Gen.Listener.oversize (d.length : Int) = false) (hfirst : guardHit s d now = false)
     (hq : quQuery H d = true) (hvalid : (H.parse d).valid = true) (htc : (H.parse d).truncated = false)
-    (hview : ∀ x ps, (view x ps a p).pureQU = true ∧ (view x ps a p).allRecent = true) :
+    (hent : H.hasEntries s.down = true)
+    (hview : (view (H.onQuery s.down ((alGet a s.deferred).getD [] ++ [(⟨d, now⟩ : Packet)]) a p).1 [(⟨d, now⟩ : Packet)] a p).pureQU = true ∧
+             (view (H.onQuery s.down ((alGet a s.deferred).getD [] ++ [(⟨d, now⟩ : Packet)]) a p).1 [(⟨d, now⟩ : Packet)] a p).allRecent = true) :
     (recv H (recv H s d a p now r).1 d a p now r').2.1.all Emit.isUnicast = true := by
   rw [C16_qu_reprocessed H s d a p now r r' hsize hfirst hq]
-  simp only [quQuery, Bool.and_eq_true] at hq
-  generalize (process H s d a p now r).1 = s1
-  unfold process
-  simp only [hvalid, hq.1, Bool.not_true, Bool.false_eq_true, ↓reduceIte]
-  split
-  · simp
-  · simp only [queryOrDefer, htc, Bool.not_false, ↓reduceIte, respondMsg]
+  have hq' := hq
+  simp only [quQuery, Bool.and_eq_true] at hq'
+  rw [process_answered H s d a p now r hvalid hq'.1 htc hent]
+  simp only
+  by_cases he2 : H.hasEntries (H.onQuery s.down ((alGet a s.deferred).getD [] ++ [(⟨d, now⟩ : Packet)]) a p).1 = true
+  · rw [process_answered H _ d a p now r' hvalid hq'.1 htc he2]
+    simp only [alGet_alErase_self, Option.getD_none, List.nil_append]
     rw [hH]
-    exact C16_qu_partial _ (hview _ _).1 (hview _ _).2
+    exact C16_qu_partial _ hview.1 hview.2
+  · simp [process, hvalid, hq'.1, he2]
 
 /-! ### the hypotheses are satisfiable, the conclusions are not vacuous -/
 
@@ -291,6 +425,28 @@ example : TimerInv (σ := Nat) ⟨none, 0, none, [("a", [⟨[0, 1], 5⟩])], [("
 example : (tcFire demoH ⟨none, 0, none, [("a", [⟨[0, 1], 5⟩])], [("a", ⟨450, 5353⟩)], 0⟩ "a").toOption.map (·.2.1) = some ["query/1"] := by decide
 -- without the invariant the model does raise, as the code would
 example : (tcFire demoH ⟨none, 0, none, [], [("a", ⟨450, 5353⟩)], 0⟩ "a").toOption.isNone = true := by decide
+-- a handler whose view depends on the downstream state (how often it has answered: the first answer finds the cache
+-- empty, later ones find the record recent) and on the packets (several packets: a QM question among them)
+-- meets the hypothesis of `C16_qu_second_copy_unicast_partial` at the state the first copy leaves, not at every state
+example : ∃ (H : Handler Nat Emit Unit) (view : Nat → List Packet → Addr → Nat → QueryIn),
+    (∀ x ps a p, (H.onQuery x ps a p).2 = respondEmits (view x ps a p)) ∧
+    ((view (H.onQuery 0 [⟨[0, 1], 7⟩] "a" 5353).1 [⟨[0, 1], 7⟩] "a" 5353).pureQU = true ∧
+     (view (H.onQuery 0 [⟨[0, 1], 7⟩] "a" 5353).1 [⟨[0, 1], 7⟩] "a" 5353).allRecent = true) ∧
+    (view 0 [⟨[0, 1], 7⟩] "a" 5353).allRecent = false ∧ (view 1 [⟨[0, 1], 7⟩, ⟨[0, 2], 7⟩] "a" 5353).pureQU = false :=
+  ⟨{ parse := fun d => { valid := true, isQuery := d.head? == some 0, truncated := false, hasQU := d.length > 1 },
+     onResponse := fun n _ => (n, []), hasEntries := fun _ => true,
+     onQuery := fun x ps _ p => (x + 1, respondEmits ⟨false, p, 1000, 1, 12,
+       [⟨ps.length == 1, [⟨0, if x > 0 then some (900, 4500) else none⟩]⟩]⟩),
+     other := fun n _ => (n, []) },
+   fun x ps _ p => ⟨false, p, 1000, 1, 12, [⟨ps.length == 1, [⟨0, if x > 0 then some (900, 4500) else none⟩]⟩]⟩,
+   fun _ _ _ _ => rfl, by decide, by decide, by decide⟩
+-- `demoH` is not repeat-neutral (it counts), a handler that ignores repeats is: `QueryRepeatNeutral` is satisfiable and not trivial
+example : QueryRepeatNeutral (σ := Nat) (ω := String) (β := Unit)
+    { parse := fun _ => default, onResponse := fun n _ => (n, []), hasEntries := fun _ => true,
+      onQuery := fun n ps _ _ => (max n ps.length, ["u"]), other := fun n _ => (n, []) } (fun o => o == "u") := by
+  intro x ps pk a p
+  simp only [List.length_append, List.length_singleton, List.mem_singleton, forall_eq, beq_self_eq_true, and_true]
+  omega
 -- `pureQU`/`allRecent` hold for a recent answer and the conclusion is a real unicast datagram
 example : (⟨false, 5353, 1000, 1, 12, [⟨true, [⟨0, some (900, 4500)⟩]⟩]⟩ : QueryIn).pureQU = true := by decide
 example : (⟨false, 5353, 1000, 1, 12, [⟨true, [⟨0, some (900, 4500)⟩]⟩]⟩ : QueryIn).allRecent = true := by decide
